@@ -486,6 +486,7 @@ package parse
 
 //@ func (*tree).newValueNode
 //@   like exprFn
+//@   props C05 C18 C01
 //@   measure rem(t), 4
 //@   nopanic
 //@   requires tokShape(tok) && (tok.typ == itemNull || tok.typ == itemBool || tok.typ == itemInteger || tok.typ == itemFloat || tok.typ == itemDollarIdent || tok.typ == itemString || tok.typ == itemIdent || tok.typ == itemLeftBracket)
